@@ -366,6 +366,7 @@ impl<K: El, V: El> Mon<K, V> {
     // ------------------------------------------------------------------------------------
 
     pub fn step(&mut self, op: &Op) -> Res<Obs> {
+        heartbeat();
         let st0 = self.state();
         let has_key = op_has_key(op.code);
         let loc0 = if has_key { Some(self.locate(op.k)) } else { None };
